@@ -4,11 +4,13 @@ package main
 // bounded allocation, ok => structurally valid), C14 (flag parsing accounts for every token).
 
 import (
+	"bytes"
 	"encoding/binary"
 	"encoding/hex"
 	"encoding/json"
 	"fmt"
 	"math/rand"
+	"net"
 	"os"
 	"os/user"
 	"path/filepath"
@@ -16,6 +18,7 @@ import (
 	"sort"
 	"strconv"
 	"strings"
+	"syscall"
 
 	"github.com/kballard/go-shellquote"
 
@@ -150,6 +153,20 @@ func setupRuleTmp(verif string) {
 	os.MkdirAll(filepath.Join(ruleTmp, "dir1", "sub"), 0o755)
 	os.WriteFile(filepath.Join(ruleTmp, "file1"), []byte("x"), 0o644)
 	os.WriteFile(filepath.Join(ruleTmp, "dir1", "f2"), []byte("x"), 0o644)
+	// objects of other kinds at a watched path: a FIFO nobody writes to, a unix socket, symbolic links to a file, to a
+	// directory and to nothing (the kind of a watch is decided by looking at the path, never by opening it)
+	syscall.Mkfifo(filepath.Join(ruleTmp, "fifo1"), 0o600)
+	if l, err := net.Listen("unix", filepath.Join(ruleTmp, "sock1")); err == nil {
+		l.(*net.UnixListener).SetUnlinkOnClose(false)
+		l.Close()
+	}
+	os.Symlink(filepath.Join(ruleTmp, "file1"), filepath.Join(ruleTmp, "ln-file"))
+	os.Symlink(filepath.Join(ruleTmp, "dir1"), filepath.Join(ruleTmp, "ln-dir"))
+	os.Symlink(filepath.Join(ruleTmp, "nowhere"), filepath.Join(ruleTmp, "ln-dangling"))
+	// names that are not valid UTF-8 (legacy encodings), as a directory, inside such a directory, and as a file
+	os.MkdirAll(filepath.Join(ruleTmp, "caf\xe9", "sub"), 0o755)
+	os.WriteFile(filepath.Join(ruleTmp, "caf\xe9", "men\xfc.txt"), []byte("x"), 0o644)
+	os.WriteFile(filepath.Join(ruleTmp, "f\xff\xfe"), []byte("x"), 0o644)
 }
 
 type ruleEnv struct {
@@ -297,13 +314,86 @@ func runRImpl(c RCaseR) (o rObs) {
 	case "struct":
 		o.Rule = parseSpec(c.Spec)
 		o.Env = envFor(o.Rule)
+		intact := withSpareCapacity(o.Rule)
 		runtime.ReadMemStats(&ms0)
 		o.WF, o.BErr = rule.Build(o.Rule)
 		runtime.ReadMemStats(&ms1)
 		o.Out = renderBytesOrErr(o.WF, o.BErr)
+		if msg := intact(); msg != "" {
+			o.Panic = msg
+		}
 	}
 	o.Alloc = ms1.TotalAlloc - ms0.TotalAlloc
 	return o
+}
+
+// withSpareCapacity re-houses the slices of a rule in arrays that have room beyond their length, filled with
+// sentinels (a caller's slice may be a prefix of a longer one it still uses); the returned function reports whether
+// Build wrote to the caller's rule or to the array behind it.
+func withSpareCapacity(r rule.Rule) func() string {
+	sentF := rule.FilterSpec{Type: 99, LHS: "sentinel", Comparator: "~", RHS: "sentinel"}
+	spareS := func(s []string) []string {
+		n := append(make([]string, 0, len(s)+3), s...)
+		copy(n[len(s):cap(n)], []string{"sentinel", "sentinel", "sentinel"})
+		return n
+	}
+	checkS := func(what string, s, orig []string) string {
+		if len(s) != len(orig) {
+			return what + " changed length"
+		}
+		for i := range orig {
+			if s[i] != orig[i] {
+				return what + " changed"
+			}
+		}
+		for _, x := range s[len(s):cap(s)] {
+			if x != "sentinel" {
+				return "the array behind " + what + " was written beyond the slice's length"
+			}
+		}
+		return ""
+	}
+	switch v := r.(type) {
+	case *rule.SyscallRule:
+		of, os_, ok := append([]rule.FilterSpec{}, v.Filters...), append([]string{}, v.Syscalls...), append([]string{}, v.Keys...)
+		nf := append(make([]rule.FilterSpec, 0, len(v.Filters)+3), v.Filters...)
+		for i := len(nf); i < cap(nf); i++ {
+			nf[:cap(nf)][i] = sentF
+		}
+		v.Filters, v.Syscalls, v.Keys = nf, spareS(v.Syscalls), spareS(v.Keys)
+		return func() string {
+			if len(v.Filters) != len(of) {
+				return "C13: Build changed the caller's rule: Filters changed length"
+			}
+			for i := range of {
+				if v.Filters[i] != of[i] {
+					return "C13: Build changed the caller's rule: a filter was rewritten"
+				}
+			}
+			for _, x := range v.Filters[len(v.Filters):cap(v.Filters)] {
+				if x != sentF {
+					return "C13: Build wrote to the array behind the caller's Filters beyond the slice's length (a longer slice sharing it is corrupted)"
+				}
+			}
+			if m := checkS("Syscalls", v.Syscalls, os_); m != "" {
+				return "C13: Build changed the caller's rule: " + m
+			}
+			if m := checkS("Keys", v.Keys, ok); m != "" {
+				return "C13: Build changed the caller's rule: " + m
+			}
+			return ""
+		}
+	case *rule.FileWatchRule:
+		ok := append([]string{}, v.Keys...)
+		v.Keys = spareS(v.Keys)
+		return func() string {
+			if m := checkS("Keys", v.Keys, ok); m != "" {
+				return "C13: Build changed the caller's rule: " + m
+			}
+			return ""
+		}
+	}
+	return func() string { return "" }
 }
 
 func rModelLine(c RCaseR, o rObs) string {
@@ -1266,7 +1356,9 @@ func genRuleLine(rng *rand.Rand, wantValid bool) RCaseR {
 	eq := func() bool { return rng.Intn(10) == 0 }
 	switch x := rng.Intn(10); {
 	case x == 0: // file watch
-		paths := []string{filepath.Join(ruleTmp, "file1"), filepath.Join(ruleTmp, "dir1"), filepath.Join(ruleTmp, "dir1") + "/", filepath.Join(ruleTmp, "nonexistent"), "/etc/passwd", filepath.Join(ruleTmp, "dir1", "..", "file1"), "relative/path", "/"}
+		paths := []string{filepath.Join(ruleTmp, "file1"), filepath.Join(ruleTmp, "dir1"), filepath.Join(ruleTmp, "dir1") + "/", filepath.Join(ruleTmp, "nonexistent"), "/etc/passwd", filepath.Join(ruleTmp, "dir1", "..", "file1"), "relative/path", "/",
+			filepath.Join(ruleTmp, "fifo1"), filepath.Join(ruleTmp, "sock1"), filepath.Join(ruleTmp, "ln-file"), filepath.Join(ruleTmp, "ln-dir"), filepath.Join(ruleTmp, "ln-dangling"), "/dev/null", "/dev/tty", "/proc/self/exe", "/proc/self",
+			filepath.Join(ruleTmp, "caf\xe9"), filepath.Join(ruleTmp, "caf\xe9", "sub"), filepath.Join(ruleTmp, "caf\xe9", "men\xfc.txt"), filepath.Join(ruleTmp, "f\xff\xfe")}
 		p := paths[rng.Intn(len(paths))]
 		if rng.Intn(5) == 0 {
 			p = filepath.Join(ruleTmp, "flip")
@@ -1650,7 +1742,19 @@ func ruleFamily(ctx *Ctx) error {
 			Input RCaseR `json:"input"`
 		}
 		if err := json.Unmarshal(b, &rp); err != nil {
-			return err
+			// two consecutive cases (a result of the first looked at again after the second)
+			var rp2 struct {
+				Input []RCaseR `json:"input"`
+			}
+			if err2 := json.Unmarshal(b, &rp2); err2 != nil || len(rp2.Input) < 2 {
+				return err
+			}
+			o1 := runRImpl(rp2.Input[0])
+			ruleSnap, wfSnap, txSnap := fmt.Sprintf("%#v", o1.Rule), append([]byte(nil), o1.WF...), strings.Clone(o1.Text)
+			o2 := runRImpl(rp2.Input[1])
+			fmt.Printf("first : %q\nsecond: %q\nafter the second call, of the first: rule unchanged=%v wire data unchanged=%v text unchanged=%v\n", o1.Line, o2.Line,
+				fmt.Sprintf("%#v", o1.Rule) == ruleSnap, bytes.Equal(o1.WF, wfSnap), o1.Text == txSnap)
+			return nil
 		}
 		o := runRImpl(rp.Input)
 		rep, _ := m.Ask1(rModelLine(rp.Input, o))
@@ -1693,11 +1797,52 @@ func ruleFamily(ctx *Ctx) error {
 		}
 		pend = pend[:0]
 	}
+	// what earlier calls returned stays what it was: the rule, the wire bytes and the text of the last few cases are
+	// kept together with a rendering made into fresh memory at the time, and looked at again after every later call
+	// (a result that lives in a pooled or shared buffer is rewritten by the next call, not by its own)
+	type kept struct {
+		c            RCaseR
+		rule         rule.Rule
+		ruleSnap     string
+		wf, wfSnap   []byte
+		text, txSnap string
+	}
+	var ring []kept
+	retained := func() string {
+		for _, k := range ring {
+			if k.rule != nil && fmt.Sprintf("%#v", k.rule) != k.ruleSnap {
+				return "the rule flags.Parse returned for an earlier line changed after a later call"
+			}
+			if !bytes.Equal(k.wf, k.wfSnap) {
+				return "the wire data rule.Build returned for an earlier rule changed after a later call"
+			}
+			if k.text != k.txSnap {
+				return "the text rule.ToCommandLine returned for an earlier rule changed after a later call"
+			}
+		}
+		return ""
+	}
 	run := func(c RCaseR, tag string) rObs {
 		o := runRImpl(c)
 		if o.NoTok {
 			res.Hist("skipped:shellquote")
 			return o
+		}
+		if cl := retained(); cl != "" && unlisted < 8 {
+			unlisted++
+			pfx := map[string]string{"C06": "C06: ", "C07": "C07: ", "C13": "C13: ", "C14": "C14: "}[ctx.Prop]
+			res.Violate(common.Violation{Kind: "monitor", Clause: pfx + cl, Input: []RCaseR{ring[len(ring)-1].c, c}, Case: idx, Note: "two consecutive cases: the first one's results are looked at again after the second"})
+			ring = nil
+		}
+		if o.Panic == "" {
+			k := kept{c: c, wf: o.WF, wfSnap: append([]byte(nil), o.WF...), text: o.Text, txSnap: strings.Clone(o.Text)}
+			if c.Kind == "line" && o.PErr == nil && o.Rule != nil {
+				k.rule, k.ruleSnap = o.Rule, fmt.Sprintf("%#v", o.Rule)
+			}
+			ring = append(ring, k)
+			if len(ring) > 6 {
+				ring = ring[1:]
+			}
 		}
 		nt := c.Kind != "line" || len(c.Occs) > 1
 		res.Count(c.canon(), nt)
